@@ -25,7 +25,10 @@ type c10Line struct {
 type c10Scenario struct {
 	FloodOff bool      `json:"flood_setting"` // Config.Flood = true from the start: no line may be delayed
 	ToggleAt int       `json:"toggle_at"`     // >=0: Config.Flood is set to true before this line (after the queue drained)
+	OffAt    int       `json:"off_at"`        // > ToggleAt: Config.Flood is set back to false before this line; -1 never
 	Lines    []c10Line `json:"lines"`
+
+	createdLo, createdHi time.Time // set by the run: when the client (and with it the penalty clock) was created
 }
 
 type c10Obs struct {
@@ -45,13 +48,32 @@ const c10Tol = 250 * time.Millisecond    // stated tolerance of the window bound
 
 func genC10(t *rapid.T, maxLines int, idx int) *c10Scenario {
 	// the composition of a batch is fixed: every sixth scenario has Flood set, every sixth toggles it
-	sc := &c10Scenario{ToggleAt: -1, FloodOff: idx%6 == 5}
+	sc := &c10Scenario{ToggleAt: -1, OffAt: -1, FloodOff: idx%6 == 5}
 	n := rapid.IntRange(3, maxLines).Draw(t, "nlines")
 	for i := 0; i < n; i++ {
 		sc.Lines = append(sc.Lines, c10Line{Len: rapid.SampledFrom([]int{0, 1, 50, 120, 300, 500}).Draw(t, "len"), GapMS: rapid.SampledFrom([]int{0, 0, 0, 500, 2500, 6000}).Draw(t, "gap_ms")})
 	}
-	if idx%6 == 4 {
+	if idx%6 == 3 || idx%6 == 4 {
+		if idx%6 == 4 {
+			// build a penalty, idle, send one line with Flood set, switch it off again, send more:
+			// the idle time must still count as decay
+			sc.Lines = nil
+			m := rapid.IntRange(3, 4).Draw(t, "burst")
+			for i := 0; i < m; i++ {
+				sc.Lines = append(sc.Lines, c10Line{Len: rapid.SampledFrom([]int{50, 120}).Draw(t, "len")})
+			}
+			sc.ToggleAt = m
+			sc.Lines = append(sc.Lines, c10Line{Len: 10, GapMS: rapid.SampledFrom([]int{5000, 6000, 7000}).Draw(t, "idle")})
+			sc.OffAt = m + 1
+			for i, k := 0, rapid.IntRange(1, 2).Draw(t, "after"); i < k; i++ {
+				sc.Lines = append(sc.Lines, c10Line{Len: rapid.SampledFrom([]int{1, 50}).Draw(t, "len")})
+			}
+			return sc
+		}
 		sc.ToggleAt = rapid.IntRange(1, n-1).Draw(t, "toggle_at")
+		if sc.ToggleAt+1 < n && rapid.IntRange(0, 2).Draw(t, "toggle_back") > 0 {
+			sc.OffAt = rapid.IntRange(sc.ToggleAt+1, n-1).Draw(t, "off_at")
+		}
 	}
 	return sc
 }
@@ -60,6 +82,7 @@ func genC10(t *rapid.T, maxLines int, idx int) *c10Scenario {
 // on the wire (registration lines included) in wire order.
 func runC10One(sc *c10Scenario) ([]c10Obs, *Violation) {
 	tc := newTestClient(cliOpts{Flood: sc.FloodOff})
+	sc.createdLo, sc.createdHi = tc.CreatedLo, tc.CreatedHi
 	defer tc.shutdown()
 	var mu sync.Mutex
 	enq := map[string]time.Time{}
@@ -83,10 +106,16 @@ func runC10One(sc *c10Scenario) ([]c10Obs, *Violation) {
 			}
 			tc.C.Config().Flood = true
 		}
+		if k == sc.OffAt && sc.OffAt > sc.ToggleAt && sc.ToggleAt >= 0 {
+			if !waitWire(total) {
+				return nil, violationf("C10", "queue did not drain before Flood was switched back off")
+			}
+			tc.C.Config().Flood = false
+		}
 		line := fmt.Sprintf("L %d %s", k, strings.Repeat("x", l.Len))
 		mu.Lock()
 		enq[line] = time.Now()
-		exempt[line] = sc.FloodOff || (sc.ToggleAt >= 0 && k >= sc.ToggleAt)
+		exempt[line] = sc.FloodOff || (sc.ToggleAt >= 0 && k >= sc.ToggleAt && !(sc.OffAt > sc.ToggleAt && k >= sc.OffAt))
 		mu.Unlock()
 		tc.C.Raw(line)
 		total++
@@ -125,18 +154,11 @@ func checkC10(sc *c10Scenario, obs []c10Obs) (held, free int, v *Violation) {
 			return held, free, violationf("C10", "Flood is set but %s was delayed by %v", describe(k), d)
 		}
 	}
-	// the rate-limited prefix
 	n := len(obs)
-	for k, o := range obs {
-		if o.exempt {
-			n = k
-			break
-		}
-	}
-	// (i) window bound, delay-independent
+	// (i) window bound, delay-independent, over every run of consecutive rate-limited lines
 	for i := 0; i < n; i++ {
 		var sum time.Duration
-		for j := i; j < n; j++ {
+		for j := i; j < n && !obs[j].exempt; j++ {
 			sum += charge(obs[j].chars)
 			window := obs[j].wire.Sub(obs[i].wire)
 			if bound := window + 10*time.Second + charge(obs[i].chars) + charge(obs[j].chars) + c10Tol; sum > bound {
@@ -144,25 +166,39 @@ func checkC10(sc *c10Scenario, obs []c10Obs) (held, free int, v *Violation) {
 			}
 		}
 	}
-	// (ii)/(iii) replay Hybrid's rule with interval arithmetic over the accounting instants
+	// (ii)/(iii) replay Hybrid's rule with interval arithmetic over the accounting instants. Lines
+	// issued while Flood is set are neither charged nor do they stop the penalty from decaying.
 	var blo, bhi time.Duration
-	var rlo, rhi time.Time // bounds on the previous accounting instant (lastsent)
+	var rlo, rhi time.Time // bounds on the previous accounting instant
+	first := true
 	for k := 0; k < n; k++ {
 		o := obs[k]
+		if o.exempt {
+			continue
+		}
 		ready := o.enq
 		if k > 0 && obs[k-1].wire.After(ready) {
 			ready = obs[k-1].wire
 		}
 		L := charge(o.chars)
-		// this line's accounting happens in [ready, wire]
+		// this line's accounting happens after it became ready and before it was written; it is
+		// assumed to happen within the scheduling slack of becoming ready (the same assumption the
+		// "not held back" direction makes), otherwise a held-back line could never be told from a stall
 		alo, ahi := ready, o.wire
 		if ahi.Before(alo) {
 			alo = ahi
 		}
+		if lim := alo.Add(c10Slack); lim.Before(ahi) {
+			ahi = lim
+		}
 		var elLo, elHi time.Duration
-		if k == 0 {
-			// lastsent was initialised when the client was created, some time before Connect
-			elLo, elHi = 0, ahi.Sub(o.enq)+time.Second
+		if first {
+			// the clock of the penalty started when the client was created, some time before Connect
+			elLo, elHi = alo.Sub(sc.createdHi), ahi.Sub(sc.createdLo)
+			if elLo < 0 {
+				elLo = 0
+			}
+			first = false
 		} else {
 			elLo, elHi = alo.Sub(rhi), ahi.Sub(rlo)
 			if elLo < 0 {
@@ -224,6 +260,17 @@ func runC10Batch(batch []*c10Scenario) (nontrivial []bool, v *Violation) {
 		}
 		held, free, cv := checkC10(batch[r.i], r.obs)
 		nontrivial[r.i] = held > 0 && free > 0
+		if cv != nil && !strings.Contains(cv.Msg, "total charge") {
+			// a timing verdict (unlike the window bound) could be caused by a stall of this process:
+			// it counts only if the same scenario fails again when run on its own
+			if obs2, v2 := runC10One(batch[r.i]); v2 == nil {
+				if _, _, cv2 := checkC10(batch[r.i], obs2); cv2 == nil {
+					cv = nil
+				} else {
+					cv, r.obs = cv2, obs2
+				}
+			}
+		}
 		if cv != nil && v == nil {
 			cv.Detail = map[string]interface{}{"scenario": batch[r.i], "writes": describeObs(r.obs)}
 			v = cv
